@@ -63,7 +63,10 @@ TypeOK(unit, D) ==
        (ObjHas(unit.docs[i], "x") /\ x.t = "big" /\ Admitted(s, x)) => InRange(r.ty, x)
 
 DesignOK == Set => LET unit == u IN Agree(unit, {}) /\ TypeOK(unit, {})
-AsIsOK   == Set => LET unit == u IN Agree(unit, Devs)
+\* the two placements of the open deviations agree where both exist: the reference-level switches of JV.Valid know
+\* nothing of --min-sized-ints, so with the flag on the as-is prediction IS the implementation-shaped model (the
+\* trace specification uses it directly, Trace_RT.ImplV)
+AsIsOK   == Set => LET unit == u IN (unit.opts.minSizedInts \/ Agree(unit, Devs))
 
 Init == lowForm \in Forms /\ upForm \in Forms /\ flag \in BOOLEAN /\ vs = <<>>
 Pick == /\ vs = <<>>
